@@ -79,4 +79,24 @@ example : reuseProg.lvarOK 2 := by
     rcases ha with rfl | rfl | rfl <;> simp [Action.lvarOK]
   · simp at ha
 
+/-! ### the restriction to listener variables < nl is needed
+
+  One listener variable in the harness (nl = 1).  `delL 0; newL 0` gives variable 0 a new object: in `exec` that is object id 1 =
+  `nextL`, which `Run.init` also lets the out-of-range variable 1 hold (`lId = id`), and `lIdx 1` becomes 0.  A connection made
+  through variable 1 is then invoked under listener index 0 in `exec`, but under index 1 with reuse (there variable 1 keeps an
+  object of its own).  The harness, the driver and the generators only use variables < nl (the parsers reject the others). -/
+
+def aliasOps : List Action := [.delL 0, .newL 0, .connect 0 0 1 0, .emit 0 0 1]
+def noScripts : Prog := { script := fun _ _ _ => [] }
+
+/-- **`reuse_listener_refines` fails without its hypothesis**: a history that names listener variable 1 with nl = 1, on which
+    the two evaluators write different logs. -/
+theorem reuse_restriction_needed :
+    (¬ ∀ a ∈ aliasOps, a.lvarOK 1) ∧ noScripts.lvarOK 1 ∧
+    (runOps machine noScripts 20 (Run.init State.fresh 1 1) aliasOps).log.reverse = [.emitBegin 0 0 1, .call 0 0 1, .emitEnd] ∧
+    (runOpsRL machineRL noScripts 20 (Run.init State.fresh 1 1) aliasOps).log.reverse = [.emitBegin 0 0 1, .call 1 0 1, .emitEnd] := by
+  refine ⟨fun h => ?_, fun l s k a ha => by simp [noScripts] at ha, by decide, by decide⟩
+  have := h (.connect 0 0 1 0) (by simp [aliasOps])
+  simp [Action.lvarOK] at this
+
 end Nstd.Callback
